@@ -268,6 +268,43 @@ func H_EqualityByValue() {
 	zv.Reach("compared")
 }
 
+// H_LiteralsStay: a number literal denotes the number it spells every time
+// it is evaluated - also after an earlier evaluation of the same spelling has
+// been changed in place (自增 / 自减 on the literal itself or on a parameter
+// bound to it), later in the program, on a later loop pass, or in a later
+// execution in the same process.
+func H_LiteralsStay() {
+	x := zv.Float64("x")
+	zv.Assume((x >= 1 && x <= 1000000) || (x <= -1 && x >= -1000000)) // a change that is visible in the sums below
+	lit := []string{"40", "2.5*10^3", "7"}[zv.Choose(3)]
+	want := []float64{40, 2500, 7}[zv.Choose(1)]
+	switch lit {
+	case "2.5*10^3":
+		want = 2500
+	case "7":
+		want = 7
+	default:
+		want = 40
+	}
+	var src string
+	switch zv.Choose(4) {
+	case 0:
+		src = "输入X\n以 " + lit + "（自增：X）\n输出 " + lit + " + 0"
+	case 1:
+		src = "输入X\n如何改？\n    输入N\n    以N（自减：X）\n    输出 0\n（改：" + lit + "）\n输出 " + lit + " + 0"
+	case 2:
+		src = "输入X\n令S = 0\n以I遍历【1，2，3】：\n    令V = " + lit + "\n    S = S + " + lit + "\n    以 " + lit + "（自增：X）\n输出 S / 3"
+	default:
+		run([]rune("输入X\n以 "+lit+"（自增：X）\n输出 1"), r.ElementMap{"X": value.NewNumber(x)})
+		src = "输入X\n输出 " + lit + " + 0"
+	}
+	res, err, p := run([]rune(src), r.ElementMap{"X": value.NewNumber(x)})
+	zv.Assert(p == nil && err == nil, "literals: the program runs\n"+src)
+	n, ok := res.(*value.Number)
+	zv.Assert(ok && n.GetValue() == want, "a number literal yields the number it spells, whatever happened to an earlier evaluation of the same spelling\n"+src)
+	zv.Reach("done")
+}
+
 // W_Operators_Witness: vacuity guard.
 func W_Operators_Witness() {
 	a := zv.Float64("a")
